@@ -675,7 +675,8 @@ class Category(DataType, dtypes.Category):
     ):
         """Convert a categorical to
         a Pandera :class:`pandera.dtypes.pandas_engine.Category`."""
-        return cls(categories=cat.categories, ordered=cat.ordered)  # type: ignore
+        # pandas reads ordered=None (unspecified) as False
+        return cls(categories=cat.categories, ordered=bool(cat.ordered))  # type: ignore
 
 
 if PANDAS_1_3_0_PLUS:
